@@ -3,6 +3,7 @@
 From ZV.Common Require Import Base Run.
 From Coq Require Import Sorting.Sorted Sorting.Permutation.
 From ZV.C11 Require Import Model ProofsSpec.
+
 Open Scope N_scope.
 
 Ltac sorted_by_eval := apply sortedb_Sorted; vm_compute; reflexivity.
@@ -43,3 +44,15 @@ Example is_sorted_perm_inhabited :
   is_sorted_perm [3; 1; 2; 1] [1; 1; 2; 3] = true /\ is_sorted_perm [3; 1; 2; 1] [1; 2; 3] = false /\
   is_sorted_perm [3; 1] [3; 1] = false.
 Proof. repeat split; vm_compute; reflexivity. Qed.
+
+Example insertion_sort_inhabited : insertion_sort [5; 2; 8; 2; 0] = [0; 2; 2; 5; 8].
+Proof. vm_compute; reflexivity. Qed.
+
+Example external_sort_inhabited :
+  (0 < 2)%nat /\ rs_runs_of 2 [5; 2; 8; 1; 9; 3; 7; 4; 6] = [[2; 5]; [1; 8]; [3; 7]; [4; 6; 9]] /\
+  rs_sort 2 [5; 2; 8; 1; 9; 3; 7; 4; 6] = [1; 2; 3; 4; 5; 6; 7; 8; 9].
+Proof. split; [lia|split; vm_compute; reflexivity]. Qed.
+
+(* witness: a buffer that holds no element loses the input (fixed in the code by ddd21a5) *)
+Lemma external_sort_zero_buffer_refuted_proof : exists input, rs_sort 0 input <> isort input.
+Proof. exists [3; 1; 2]. vm_compute. discriminate. Qed.
